@@ -211,6 +211,11 @@ def ge_form(t: T) -> Optional[Tuple[T, T, int]]:
     if n in ("jax.numpy.any", "jax.numpy.all") and len(t.args[1]) == 1:
         return ge_form(t.args[1][0])
     if t.kind != "cmp":
+        # not (a < b) is a >= b over the integers
+        inner = negand(t)
+        if inner is not None and inner.kind == "cmp" and inner.args[0] in ("<", "<=", ">", ">="):
+            inv = {"<": ">=", "<=": ">", ">": "<=", ">=": "<"}[inner.args[0]]
+            return ge_form(mk("cmp", inv, inner.args[1], inner.args[2]))
         return None
     op, a, b = t.args
     ba, ka = linear(a)
